@@ -986,6 +986,228 @@ Proof.
       * cbn [tree]. split; [apply wf_trunc; auto | auto].
 Qed.
 
+(* ------------------------------------------------------------------------------------------------ insert_graph *)
+Definition spec_vertex (K : cplx) (i : Z) (w : V) : cplx := match lookup K [i] with None => cset K [i] w | Some _ => K end.
+Definition model_vertex (l : sibs) (i : Z) (w : V) : sibs := match get i l with None => put i w leaf l | Some _ => l end.
+Definition spec_edge (K : cplx) (e : Z * Z * V) : cplx :=
+  let '(u, v, w) := e in match lookup K (edge_key u v) with None => cset K (edge_key u v) w | Some _ => K end.
+
+Lemma spec_graph_vertices_step K i w r : spec_graph_vertices K i (w :: r) = spec_graph_vertices (spec_vertex K i w) (i + 1) r.
+Proof. reflexivity. Qed.
+Lemma graph_vertices_step i w r l : graph_vertices i (w :: r) l = graph_vertices (i + 1) r (model_vertex l i w).
+Proof. reflexivity. Qed.
+
+Lemma vertex_agree l K i w : agree l K -> agree (model_vertex l i w) (spec_vertex K i w).
+Proof.
+  intros [Hwf Ha]. unfold model_vertex, spec_vertex.
+  rewrite <- (Ha [i]) by congruence. rewrite find_val_one.
+  destruct (get i l) as [[w0 c0]|] eqn:E; cbn [option_map]; [split; auto|].
+  split; [apply wf_put; auto; exact I|]. intros t Ht.
+  destruct t as [|z [|z' t']]; [congruence| |].
+  - rewrite find_val_one. destruct (Z.eq_dec z i) as [->|Hz].
+    + rewrite get_put_same, lookup_cset_same. reflexivity.
+    + rewrite get_put_other, lookup_cset_other by congruence. rewrite <- Ha by congruence. reflexivity.
+  - rewrite lookup_cset_other by congruence. rewrite <- Ha by congruence. rewrite !find_val_deep.
+    destruct (Z.eq_dec z i) as [->|Hz].
+    + rewrite get_put_same, E. cbn [leaf]. apply find_val_nil_l.
+    + rewrite get_put_other by auto. reflexivity.
+Qed.
+Lemma vertices_agree : forall vw i l K, agree l K -> agree (graph_vertices i vw l) (spec_graph_vertices K i vw).
+Proof.
+  induction vw as [|w r IH]; intros i l K H; auto.
+  rewrite graph_vertices_step, spec_graph_vertices_step. apply IH. apply vertex_agree; auto.
+Qed.
+
+(* presence is never lost by the vertex and edge steps *)
+Lemma model_vertex_keeps l i w t : find_val t l <> None -> find_val t (model_vertex l i w) <> None.
+Proof.
+  unfold model_vertex. destruct (get i l) as [[w0 c0]|] eqn:E; auto. intro H.
+  destruct t as [|z [|z' t']]; [cbn in H; congruence| |].
+  - rewrite find_val_one in *. destruct (Z.eq_dec z i) as [->|Hz]; [rewrite E in H; cbn in H; congruence|].
+    rewrite get_put_other by auto. exact H.
+  - rewrite find_val_deep in *. destruct (Z.eq_dec z i) as [->|Hz]; [rewrite E in H; congruence|].
+    rewrite get_put_other by auto. exact H.
+Qed.
+Lemma model_vertex_has l i w : find_val [i] (model_vertex l i w) <> None.
+Proof.
+  unfold model_vertex. rewrite find_val_one. destruct (get i l) as [[w0 c0]|] eqn:E; [rewrite E; cbn; congruence|].
+  rewrite get_put_same. cbn. congruence.
+Qed.
+Lemma graph_vertices_keeps : forall vw i l t, find_val t l <> None -> find_val t (graph_vertices i vw l) <> None.
+Proof.
+  induction vw as [|w r IH]; intros i l t H; auto.
+  rewrite graph_vertices_step. apply IH. apply model_vertex_keeps; auto.
+Qed.
+Lemma graph_vertices_has : forall vw i l x, i <= x < i + Z.of_nat (length vw) -> find_val [x] (graph_vertices i vw l) <> None.
+Proof.
+  induction vw as [|w r IH]; intros i l x Hx; [cbn [length] in Hx; lia|].
+  rewrite graph_vertices_step. destruct (Z.eq_dec x i) as [->|Hne].
+  - apply graph_vertices_keeps. apply model_vertex_has.
+  - apply IH. cbn [length] in Hx. lia.
+Qed.
+
+Lemma edge_key_minmax u0 v0 : u0 <> v0 -> edge_key u0 v0 = [Z.min u0 v0; Z.max u0 v0].
+Proof. intro H. unfold edge_key. destruct (u0 <? v0) eqn:E; f_equal; try f_equal; lia. Qed.
+
+Lemma graph_edge_unfold l u0 v0 w :
+  graph_edge l (u0, v0, w) =
+  match get (Z.min u0 v0) l with
+  | None => l
+  | Some (wu, Node c) => match get (Z.max u0 v0) c with
+                         | None => put (Z.min u0 v0) wu (Node (put (Z.max u0 v0) w leaf c)) l
+                         | Some _ => l
+                         end
+  end.
+Proof. reflexivity. Qed.
+
+Lemma edge_agree l K u0 v0 w :
+  agree l K -> u0 <> v0 -> find_val [Z.min u0 v0] l <> None ->
+  agree (graph_edge l (u0, v0, w)) (spec_edge K (u0, v0, w)).
+Proof.
+  intros [Hwf Ha] Hne Hu. rewrite graph_edge_unfold. unfold spec_edge. rewrite edge_key_minmax by auto.
+  set (u := Z.min u0 v0) in *. set (v := Z.max u0 v0) in *.
+  rewrite find_val_one in Hu. destruct (get u l) as [[wu [c]]|] eqn:Eu; [|cbn in Hu; congruence].
+  assert (Hc : wf c) by (rewrite <- wf_t_node; eapply wf_get; eauto).
+  rewrite <- (Ha [u; v]) by congruence. rewrite find_val_deep, Eu, find_val_one.
+  destruct (get v c) as [[wv cv]|] eqn:Ev; cbn [option_map]; [split; auto|].
+  split.
+  - apply wf_put; auto. rewrite wf_t_node. apply wf_put; auto. exact I.
+  - intros t Ht. destruct t as [|z [|y t']]; [congruence| |].
+    + rewrite lookup_cset_other by congruence. rewrite <- Ha by congruence. rewrite !find_val_one.
+      destruct (Z.eq_dec z u) as [->|Hz]; [rewrite get_put_same, Eu; reflexivity | rewrite get_put_other by auto; reflexivity].
+    + rewrite find_val_deep. destruct (Z.eq_dec z u) as [->|Hz].
+      * rewrite get_put_same. destruct (Z.eq_dec y v) as [->|Hy].
+        -- destruct t' as [|y' t''].
+           ++ rewrite find_val_one, get_put_same, lookup_cset_same. reflexivity.
+           ++ rewrite lookup_cset_other by congruence. rewrite <- Ha by congruence.
+              rewrite find_val_deep, get_put_same. cbn [leaf]. rewrite find_val_nil_l.
+              rewrite !find_val_deep, Eu. rewrite find_val_deep, Ev. reflexivity.
+        -- rewrite lookup_cset_other by congruence. rewrite <- Ha by congruence.
+           rewrite (find_val_deep u), Eu. unfold find_val. rewrite find_put_other by auto. reflexivity.
+      * rewrite get_put_other by auto. rewrite lookup_cset_other by congruence. rewrite <- Ha by congruence.
+        rewrite find_val_deep. reflexivity.
+Qed.
+
+Lemma graph_edge_keeps l e t : wf l -> find_val t l <> None -> find_val t (graph_edge l e) <> None.
+Proof.
+  destruct e as [[u0 v0] w]. intros Hwf H. rewrite graph_edge_unfold.
+  set (u := Z.min u0 v0). set (v := Z.max u0 v0).
+  destruct (get u l) as [[wu [c]]|] eqn:Eu; auto. destruct (get v c) as [[wv cv]|] eqn:Ev; auto.
+  destruct t as [|z [|y t']]; [cbn in H; congruence| |].
+  - rewrite find_val_one in *. destruct (Z.eq_dec z u) as [->|Hz]; [rewrite get_put_same; cbn; congruence|].
+    rewrite get_put_other by auto. exact H.
+  - rewrite find_val_deep in *. destruct (Z.eq_dec z u) as [->|Hz].
+    + rewrite get_put_same. rewrite Eu in H.
+      destruct (Z.eq_dec y v) as [->|Hy].
+      * exfalso. apply H. unfold find_val. destruct t'; [rewrite find_one, Ev | rewrite find_cons2, Ev]; reflexivity.
+      * unfold find_val in *. rewrite find_put_other by auto. exact H.
+    + rewrite get_put_other by auto. exact H.
+Qed.
+Lemma graph_edge_has l u0 v0 w : wf l -> find_val [Z.min u0 v0] l <> None ->
+  find_val [Z.min u0 v0; Z.max u0 v0] (graph_edge l (u0, v0, w)) <> None.
+Proof.
+  intros Hwf Hu. rewrite graph_edge_unfold. set (u := Z.min u0 v0) in *. set (v := Z.max u0 v0) in *.
+  rewrite find_val_one in Hu. destruct (get u l) as [[wu [c]]|] eqn:Eu; [|cbn in Hu; congruence].
+  destruct (get v c) as [[wv cv]|] eqn:Ev.
+  - rewrite find_val_deep, Eu, find_val_one, Ev. cbn. congruence.
+  - rewrite find_val_deep, get_put_same, find_val_one, get_put_same. cbn. congruence.
+Qed.
+Lemma wf_graph_edge l e : wf l -> wf (graph_edge l e).
+Proof.
+  destruct e as [[u0 v0] w]. intro Hwf. rewrite graph_edge_unfold.
+  destruct (get (Z.min u0 v0) l) as [[wu [c]]|] eqn:Eu; auto. destruct (get (Z.max u0 v0) c); auto.
+  assert (Hc : wf c) by (rewrite <- wf_t_node; eapply wf_get; eauto).
+  apply wf_put; auto. rewrite wf_t_node. apply wf_put; auto. exact I.
+Qed.
+
+Definition edge_ok (n : Z) (e : Z * Z * V) : bool :=
+  let '(u, v, _) := e in negb (u =? v) && (0 <=? u) && (0 <=? v) && (u <? n) && (v <? n).
+
+Lemma edges_agree n : forall es l K,
+  agree l K -> (forall x, 0 <= x < n -> find_val [x] l <> None) -> forallb (edge_ok n) es = true ->
+  agree (fold_left graph_edge es l) (fold_left spec_edge es K) /\
+  (forall t, find_val t l <> None -> find_val t (fold_left graph_edge es l) <> None).
+Proof.
+  induction es as [|[[u0 v0] w] es IH]; intros l K Ha Hv Hok; cbn [fold_left]; [split; auto|].
+  cbn [forallb] in Hok. apply andb_true_iff in Hok as [He Hok]. unfold edge_ok in He.
+  assert (Hne : u0 <> v0) by lia.
+  assert (Hu : find_val [Z.min u0 v0] l <> None) by (apply Hv; lia).
+  destruct (IH (graph_edge l (u0, v0, w)) (spec_edge K (u0, v0, w))) as [H1 H2]; auto.
+  - apply edge_agree; auto.
+  - intros x Hx. apply graph_edge_keeps; [apply Ha | apply Hv; auto].
+  - split; auto. intros t Ht. apply H2. apply graph_edge_keeps; [apply Ha | auto].
+Qed.
+
+Lemma spec_graph_unfold vw es : spec_graph vw es = fold_left spec_edge es (spec_graph_vertices [] 0 vw).
+Proof. reflexivity. Qed.
+
+Theorem graph_agree vw es :
+  forallb (edge_ok (Z.of_nat (length vw))) es = true ->
+  agree (ins_graph vw es) (spec_graph vw es) /\
+  (forall x, 0 <= x < Z.of_nat (length vw) -> find_val [x] (ins_graph vw es) <> None) /\
+  (forall u0 v0 w es', es = (u0, v0, w) :: es' -> find_val [Z.min u0 v0; Z.max u0 v0] (ins_graph vw es) <> None).
+Proof.
+  intro Hok. unfold ins_graph. rewrite spec_graph_unfold.
+  assert (H0 : agree [] []) by (split; [apply wf_nil | intros t _; rewrite find_val_nil_l; reflexivity]).
+  pose proof (vertices_agree vw 0 [] [] H0) as Hv.
+  assert (Hhas : forall x, 0 <= x < Z.of_nat (length vw) -> find_val [x] (graph_vertices 0 vw []) <> None).
+  { intros x Hx. apply graph_vertices_has. lia. }
+  destruct (edges_agree _ es _ _ Hv Hhas Hok) as [H1 H2].
+  split; auto. split; [intros x Hx; apply H2; auto|].
+  intros u0 v0 w es' ->. cbn [fold_left].
+  cbn [forallb] in Hok. apply andb_true_iff in Hok as [He Hok']. unfold edge_ok in He.
+  assert (Hu : find_val [Z.min u0 v0] (graph_vertices 0 vw []) <> None) by (apply Hhas; lia).
+  destruct (edges_agree (Z.of_nat (length vw)) es' (graph_edge (graph_vertices 0 vw []) (u0, v0, w)) (spec_edge (spec_graph_vertices [] 0 vw) (u0, v0, w))) as [_ H3]; auto.
+  - apply edge_agree; auto. lia.
+  - intros x Hx. apply graph_edge_keeps; [apply Hv | apply Hhas; auto].
+  - apply H3. apply graph_edge_has; auto. apply Hv.
+Qed.
+
+(* keys of the graph complex: vertices, and edges u < v *)
+Definition klen (K : cplx) (n : nat) : Prop := forall t, lookup K t <> None -> (length t <= n)%nat /\ ssorted t.
+Lemma spec_vertex_klen K i w n : (1 <= n)%nat -> klen K n -> klen (spec_vertex K i w) n.
+Proof.
+  intros Hn Hk t. unfold spec_vertex. destruct (lookup K [i]) eqn:E; [apply Hk|].
+  destruct (list_eq_dec Z.eq_dec t [i]) as [->|Hne].
+  - intros _. split; [cbn; lia | constructor; constructor].
+  - rewrite lookup_cset_other by auto. apply Hk.
+Qed.
+Lemma spec_vertices_klen : forall vw K i n, (1 <= n)%nat -> klen K n -> klen (spec_graph_vertices K i vw) n.
+Proof.
+  induction vw as [|w r IH]; intros K i n Hn Hk; auto.
+  rewrite spec_graph_vertices_step. apply IH; auto. apply spec_vertex_klen; auto.
+Qed.
+Lemma spec_edge_klen K u0 v0 w : u0 <> v0 -> klen K 2 -> klen (spec_edge K (u0, v0, w)) 2.
+Proof.
+  intros Hne Hk t. unfold spec_edge. rewrite edge_key_minmax by auto.
+  destruct (lookup K [Z.min u0 v0; Z.max u0 v0]) eqn:E; [apply Hk|].
+  destruct (list_eq_dec Z.eq_dec t [Z.min u0 v0; Z.max u0 v0]) as [->|Hne'].
+  - intros _. split; [cbn; lia|]. constructor; [constructor; constructor|]. constructor; [lia | constructor].
+  - rewrite lookup_cset_other by auto. apply Hk.
+Qed.
+Lemma spec_graph_klen vw es :
+  forallb (edge_ok (Z.of_nat (length vw))) es = true -> klen (spec_graph vw es) (if is_nil es then 1 else 2).
+Proof.
+  intro Hok. rewrite spec_graph_unfold.
+  assert (H1 : klen (spec_graph_vertices [] 0 vw) 1).
+  { apply spec_vertices_klen; auto. intros t H. cbn in H. congruence. }
+  destruct es as [|e es']; [exact H1|]. cbn [is_nil].
+  assert (H2 : klen (spec_graph_vertices [] 0 vw) 2) by (intros t Ht; destruct (H1 t Ht); split; auto).
+  revert H2 Hok. generalize (spec_graph_vertices [] 0 vw). generalize (e :: es'). clear.
+  induction l as [|[[u0 v0] w] es IH]; intros K Hk Hok; auto. cbn [fold_left].
+  cbn [forallb] in Hok. apply andb_true_iff in Hok as [He Hok]. unfold edge_ok in He.
+  apply IH; auto. apply spec_edge_klen; auto. lia.
+Qed.
+
+Lemma step_agree_graph fx st K vw es :
+  agree (tree st) K -> pre_op K (OGraph vw es) = true ->
+  agree (tree (step fx st (OGraph vw es))) (spec_step K (OGraph vw es)).
+Proof.
+  intros Ha Hpre. cbn [step spec_step]. destruct vw as [|w0 vw']; auto. cbn [tree].
+  cbn [pre_op] in Hpre. apply andb_true_iff in Hpre as [_ Hok].
+  apply graph_agree. exact Hok.
+Qed.
+
 (* ------------------------------------------------------------------------------------------------ the cached dimension is an upper bound *)
 Lemma prefixb_length : forall p s, prefixb p s = true -> (length p <= length s)%nat.
 Proof.
@@ -1216,7 +1438,7 @@ Qed.
 
 Definition refined_op (o : op) : bool :=
   match o with
-  | OInsert _ _ | OInsertSub _ _ | OBatch _ _ | ORemove _ | OPruneF _ | OPruneD _ | OClear | ODim | OCount => true
+  | OInsert _ _ | OInsertSub _ _ | OBatch _ _ | OGraph _ _ | ORemove _ | OPruneF _ | OPruneD _ | OClear | ODim | OCount => true
   | _ => false
   end.
 
@@ -1263,6 +1485,14 @@ Proof.
     destruct Hcase as [Ht1|Hold].
     + rewrite Ht1. unfold sdim; cbn [length]. destruct (dim_ub st <? 0) eqn:E; lia.
     + specialize (Hub t Ht Hold). pose proof (sdim_nonneg t Ht). destruct (dim_ub st <? 0) eqn:E; lia.
+  - (* insert_graph *)
+    destruct vw as [|w0 vw']; auto.
+    pose proof (step_agree_graph fx st K (w0 :: vw') es (conj Hwf Ha) Hpre) as [_ Hag].
+    cbn [step spec_step tree] in Hag.
+    cbn [pre_op] in Hpre. apply andb_true_iff in Hpre as [_ Hok].
+    pose proof (spec_graph_klen (w0 :: vw') es Hok) as Hkl.
+    intros t Ht Hf. cbn [tree dim_ub] in *. rewrite Hag in Hf by auto. destruct (Hkl t Hf) as [Hlen _].
+    unfold sdim. destruct (is_nil es); lia.
   - (* remove_maximal_simplex *)
     cbn [pre_op] in Hpre. apply andb_true_iff in Hpre as [Hmem Hcof].
     destruct (rm_max (norm s) (tree st) true) as [t0 e] eqn:Er.
@@ -1314,6 +1544,7 @@ Proof.
   - apply step_agree; auto.
   - apply step_agree; auto.
   - apply step_agree; auto.
+  - apply step_agree_graph; auto.
   - apply step_agree; auto.
   - apply step_agree_prune_f; auto.
   - apply step_agree_prune_d; auto.
@@ -1375,7 +1606,7 @@ Proof. repeat split; reflexivity. Qed.
 Definition example_history : list op :=
   [OBatch [4; 0] 1; OInsertSub [3; 1; 2] 2; OInsertSub [0; 1] 3; OInsert [0; 2] 5; ODim; OInsertSub [2; 1; 3] 1;
    ORemove [1; 2; 3]; OPruneD 1; OInsertSub [0; 1; 2] 7; OPruneF 5; ORemove [4]; ODim; OInsertSub [1; 2; 3; 4] 0;
-   OPruneD 2; OCount; OClear; OInsert [7] 0].
+   OPruneD 2; OCount; OClear; OGraph [0; 0; 1] [(0, 1, 2); (2, 1, 2); (1, 0, 5)]; OInsert [7] 0].
 Lemma example_history_ok :
   forallb refined_op example_history = true /\ ok_history example_history = true /\
   length (spec_run (firstn 14 example_history)) = 17%nat.
@@ -1594,6 +1825,7 @@ Proof.
   - cbn [dim_ub]. pose proof (sdim_lb (norm s)). destruct (_ && _); lia.
   - destruct (norm s) eqn:E; auto. cbn [dim_ub]. lia.
   - cbn [dim_ub]. destruct (_ && _); lia.
+  - destruct vw; auto. cbn [dim_ub]. destruct (is_nil es); lia.
   - destruct (rm_max (norm s) (tree st) true) as [t e]. cbn [dim_ub]. destruct (_ && _); lia.
   - cbn [dim_ub]. lia.
   - destruct (dim_ub st <=? d) eqn:E1; auto. destruct (d <? 0) eqn:E2.
@@ -1649,6 +1881,14 @@ Proof.
     + right. pose proof (sdim_nonneg _ Ht). assert (dim_ub st <? 0 = false) as -> by lia. cbn [andb].
       exists t. split; auto. split; auto. rewrite find_ins_batch by auto.
       destruct t as [|z [|z' t']]; auto. destruct (existsb (Z.eqb z) vs); congruence.
+  - (* insert_graph *)
+    destruct vw as [|w0 vw']; auto.
+    cbn [pre_op] in Hpre. apply andb_true_iff in Hpre as [_ Hok].
+    destruct (graph_agree (w0 :: vw') es Hok) as (_ & Hvs & Hed).
+    cbn [dirty]. intros _. right. cbn [tree dim_ub].
+    destruct es as [|[[u0 v0] w] es']; cbn [is_nil].
+    + exists [0]. split; [congruence|]. split; [apply Hvs; cbn [length]; lia | reflexivity].
+    + exists [Z.min u0 v0; Z.max u0 v0]. split; [congruence|]. split; [eapply Hed; reflexivity | reflexivity].
   - (* remove_maximal_simplex *)
     cbn [pre_op] in Hpre. apply andb_true_iff in Hpre as [Hmem Hcof]. apply negb_true_iff in Hcof.
     destruct (rm_max (norm s) (tree st) true) as [t0 e] eqn:Er.
